@@ -1,4 +1,5 @@
 import KonstVerif.Lemmas.IterDsl
+import KonstVerif.Lemmas.IterCalls
 /-
   C10 — Iterator-DSL method chains evaluate like the same std Iterator chains.
 
@@ -17,6 +18,32 @@ import KonstVerif.Lemmas.IterDsl
     * `konst_eq_std_commuting`, `konst_rconsumer_eq_std` — the full statement when only
       map/filter/filter_map/copied/flat_map/flatten precede the reversal;
     * `konst_enumerate_rev_doc`, `konst_rposition_doc` — the two documented exceptions.
+
+  CLOSURE CALLS (which closure is evaluated on which argument, how often, in which order) are an output
+  of the model as well: `konstEvalL c cons src : Res × Log` (`feedKL`: the literal loop nest with its
+  call log and with the guard over the `take` counters at the top of every loop, `takeGuard`).
+  FULL STATEMENT for the pair:
+      ∀ c cons src, accepted c cons → konstEvalL c cons src = (docResult c cons src, calls of the std chain)
+  Proved:
+    * `calls_erase`                 — dropping log and guards gives the model of the values back, so every
+                                      theorem above speaks about the first component of `konstEvalL`;
+    * `konst_forward_calls`         — forward fragment, every chain, closure, consumer, source: the calls
+                                      are exactly those of the std chain (`skip_while`'s predicate is
+                                      never called again after it first answered `false`, `take_while`'s
+                                      not after the stream ended, nothing before a `take` runs on an item
+                                      that is not yielded, `filter`/`map`/`flat_map`/consumer closures
+                                      exactly once per item that reaches them, in std's interleaving);
+    * `konst_forward_calls_eq_std`  — the full statement for the pair (value, calls) on the forward fragment;
+    * `hostile_forward_eq_std`      — closures that panic on a given call: same outcome (panic after
+                                      the same calls, or the same value) as the std chain;
+    * `konst_calls_normalised`      — with a reversing method (chains without `flatten`): the calls are
+                                      those of the normalised forward chain on the reversed source.
+  Before fixes 9827f8a / 7ecb606 (findings F21, F22) the forward statement was false of code and model
+  alike: `take` tested its countdown only when the next item arrived, after the closures of the methods
+  before it had run on that item (`map_take_calls`, `take0_calls`, `flat_map_take0_calls` are the
+  former counterexamples, now positive).
+  The std side of chains WITH a reversing method is not specified in Lean (`stdCalls = none`); there
+  the generated programs compare the real macros with the real std chains and with `konstEvalL`.
 -/
 namespace Konst.Props.C10
 open Konst.Iter Konst.Iter.Spec Konst.Iter.Lemmas
@@ -303,6 +330,91 @@ theorem zip_rev_differs :
 theorem take_rfind_differs :
     konstEval [.take 2] (.rfind fun _ => true) src5 = .opt (some (n 5)) ∧
     stdResult [.take 2] (.rfind fun _ => true) src5 = .opt (some (n 2)) := by decide
+
+
+/-! ### closure calls -/
+
+/-- the logged model computes the same value as the literal loop nest / the items-then-consumer model -/
+theorem calls_erase (c : List Ad) (cons : Cons) (src : List Val) :
+    (konstEvalL c cons src).1 = konstEvalK c cons src ∧ (konstEvalL c cons src).1 = konstEval c cons src :=
+  ⟨konstEvalL_fst c cons src, by rw [konstEvalL_fst, konstEvalK_eq]⟩
+
+private theorem konstEvalL_snd (c : List Ad) (cons : Cons) (src : List Val) :
+    (konstEvalL c cons src).2 =
+      (runLoopKL c (hasRev c || cons.isRev) cons (initSt c) (consInit cons) (walk (hasRev c || cons.isRev) src)).2 := by
+  unfold konstEvalL
+  simp only []
+
+/-- FORWARD FRAGMENT, the calls (every chain of any depth, every closure, every consumer, every
+    source): the calls the emitted code makes, in order, are the calls of the std chain. -/
+theorem konst_forward_calls (c : List Ad) (cons : Cons) (src : List Val)
+    (hc : hasRev c = false) (hk : cons.isRev = false) :
+    stdCalls c cons src = some (konstEvalL c cons src).2 := by
+  unfold stdCalls
+  rw [anyRev_eq_hasRev, hc, hk, konstEvalL_snd]
+  simp only [hc, hk, Bool.or_false, walk, Bool.false_eq_true, if_false]
+  rw [runLoopKL_fwd c (noRev_of_hasRev c hc) cons src _ _ (wf_init c) (cwf_init cons),
+    stdEvalStE_init, resid_init]
+
+/-- FORWARD FRAGMENT, full statement for (value, calls): konst's value and closure calls are those
+    of the std chain. -/
+theorem konst_forward_calls_eq_std (c : List Ad) (cons : Cons) (src : List Val)
+    (hc : hasRev c = false) (hk : cons.isRev = false) :
+    ∃ l, stdCalls c cons src = some l ∧ konstEvalL c cons src = (stdResult c cons src, l) := by
+  refine ⟨_, konst_forward_calls c cons src hc hk, ?_⟩
+  have h : (konstEvalL c cons src).1 = stdResult c cons src := by
+    rw [(calls_erase c cons src).2]; exact konst_forward_eq_std c cons src hc hk
+  rw [← h]
+
+/-- closures that panic on given calls: the invocation panics after the same calls as the std chain,
+    or completes with the same value and calls -/
+theorem hostile_forward_eq_std (c : List Ad) (cons : Cons) (src : List Val) (poison : Call → Bool)
+    (hc : hasRev c = false) (hk : cons.isRev = false) :
+    ∃ l, stdCalls c cons src = some l ∧
+      hostile poison (konstEvalL c cons src) = hostile poison (stdResult c cons src, l) := by
+  obtain ⟨l, h1, h2⟩ := konst_forward_calls_eq_std c cons src hc hk
+  exact ⟨l, h1, by rw [h2]⟩
+
+/-- EVERY chain without `flatten`, every consumer: the calls are those of the normalised forward chain
+    `fwd c d` (same method positions) on the source in iteration order -/
+theorem konst_calls_normalised (c : List Ad) (cons : Cons) (src : List Val) (hf : noFlatten c = true) :
+    (konstEvalL c cons src).2 =
+      consumeCalls c.length cons
+        (stdEvalE 0 (fwd c (hasRev c || cons.isRev)) ((walk (hasRev c || cons.isRev) src).map .item)) := by
+  rw [konstEvalL_snd, runLoopKL_dir c hf, fwdSt_init,
+    runLoopKL_fwd _ (fwd_noRev _ _) cons _ _ _ (wf_init _) (cwf_init cons),
+    stdEvalStE_init, resid_init, fwd_length]
+
+/-! F21, F22 (fixed by 9827f8a, 7ecb606): the former counterexamples — a closure-taking method before a
+    `take`, a `take(0)` after a `flat_map` — evaluated: nothing runs on an item that is not yielded -/
+
+private def dbl : Val → Val := fun v => match v with | .n i => .n (i * 2) | w => w
+private def lt3 : Val → Bool := fun v => match v with | .n i => decide (i < 3) | _ => false
+private def twice : Val → List Val := fun v => [v, v]
+
+theorem map_take_calls :
+    konstEvalL [.map dbl, .take 1] .forEach [n 1, n 2, n 3] = (.items [n 2], [(0, n 1), (2, n 2)]) ∧
+    stdCalls [.map dbl, .take 1] .forEach [n 1, n 2, n 3] = some [(0, n 1), (2, n 2)] := by decide
+
+theorem take0_calls :
+    (konstEvalL [.filter lt3, .take 0] .count [n 1, n 2]).2 = [] ∧
+    stdCalls [.filter lt3, .take 0] .count [n 1, n 2] = some [] := by decide
+
+theorem flat_map_take0_calls :
+    (konstEvalL [.map dbl, .flatMap twice, .take 0] .count [n 1, n 2]).2 = [] ∧
+    (konstEvalL [.flatMap twice, .take 3] .count [n 1, n 2, n 3]).2 = [(0, n 1), (0, n 2)] ∧
+    stdCalls [.flatMap twice, .take 3] .count [n 1, n 2, n 3] = some [(0, n 1), (0, n 2)] := by decide
+
+-- non-vacuity: `skip_while` stops calling its predicate after the first `false` (1, 2 pass, 5 fails,
+-- 0 and 1 are never tested); `take_while` stops the whole loop
+example : konstEvalL [.skipWhile lt3] .forEach [n 1, n 2, n 5, n 0, n 1]
+    = (.items [n 5, n 0, n 1], [(0, n 1), (0, n 2), (0, n 5), (1, n 5), (1, n 0), (1, n 1)]) := by decide
+example : konstEvalL [.takeWhile lt3, .map dbl] .count [n 1, n 5, n 0] = (.nat 1, [(0, n 1), (1, n 1), (0, n 5)]) := by
+  decide
+example : hostile (· == (0, n 0)) (konstEvalL [.skipWhile lt3] .forEach [n 1, n 5, n 0]) =
+    .inr (.items [n 5, n 0], [(0, n 1), (0, n 5), (1, n 5), (1, n 0)]) := by decide
+example : hostile (· == (0, n 5)) (konstEvalL [.skipWhile lt3] .forEach [n 1, n 5, n 0]) =
+    .inl [(0, n 1), (0, n 5)] := by decide
 
 -- non-vacuity: the fragments are inhabited by non-trivial chains, and the theorems compute
 example : Commuting [.copied, .map id, .flatMap fun v => [v, v]] := by simp [Commuting]
